@@ -15,12 +15,13 @@ from ..qexec import QRun
 from .. import gen as G
 from .. import seams
 from . import Prop
-from .c04 import shrink_query_plan, _vars_of
+from .c04 import shrink_query_plan, _vars_of, _cache_state
 
 from entity_query_language.cache_data import enable_caching, disable_caching
 
 
 class C05(Prop):
+    _states = None
     id = "C05"
     level = "exploration"
     title = "Result caching is transparent"
@@ -154,6 +155,8 @@ class C05(Prop):
                         outs.append(run.full(op[1]))
                         if has_rules:
                             run.forget_inferred_instances()
+                if mode in ("A", "C") and getattr(self, "_states", None) is not None:
+                    self._states.add((mode, op[0], enabled, _cache_state(run.pool)))
                 sim.end_op()
         finally:
             run.finish()
@@ -163,6 +166,7 @@ class C05(Prop):
         return outs
 
     def execute(self, plan):
+        self._states = set()
         sim = Sim("C05")
         sim.log_callbacks = False
         set_current(sim)
@@ -230,6 +234,7 @@ class C05(Prop):
         res.digest = sim.digest()
         res.counters = sim.counters
         res.steps = sim.seq
+        res.states = tuple(self._states)
         return res
 
     def shrink_candidates(self, plan):
